@@ -211,14 +211,28 @@ def desugar_closures(facts, body, rounds=2):
             if n in ("call_once", "call_mut", "call") and "std::ops::Fn" in (str(t.callee.trait or "") + t.callee.path) and len(t.args) == 2:
                 # `f(x)` on a closure that was handed in (and is visible after inlining the function that receives it)
                 target = None; env_local = None
+                rb = by_path.get(t.callee.resolved) if t.callee.resolved else None
+                if rb is not None and rb.kind == "Closure":
+                    # rustc already resolved the call to the closure's body: the receiver operand is the environment (or a reference to it)
+                    if len(rb.d["blocks"]) <= MAX_CLOSURE_BLOCKS and getattr(cur, "origin", cur).path != rb.path:
+                        jobs.append((blk.idx, "direct_self", n, rb, None))
+                    continue
                 from .cfg import Slice
-                orig = Slice(cur, du).origins(t.args[0])
+                orig = Slice(cur, du).origins(t.args[0])          # (the closure may travel inside another closure's environment)
+                if not (len(orig) == 1 and orig[0][0] == "agg" and isinstance(orig[0][1].agg, dict) and orig[0][1].agg.get("closure")):
+                    orig = Slice(cur, du).origins(t.args[0], follow_agg=False)
                 if len(orig) == 1 and orig[0][0] == "agg" and isinstance(orig[0][1].agg, dict) and orig[0][1].agg.get("closure"):
                     target = by_path.get(orig[0][1].agg["closure"]); env_local = orig[0][1].lhs.l
                 elif len(orig) == 1 and orig[0][0] == "const" and (orig[0][1].const or {}).get("fn"):
                     target = by_path.get(orig[0][1].const["fn"])
                 if target is not None and len(target.d["blocks"]) <= MAX_CLOSURE_BLOCKS and getattr(cur, "origin", cur).path != target.path:
                     jobs.append((blk.idx, "direct", n, target, env_local))
+                continue
+            cbody = by_path.get(t.callee.resolved or t.callee.path) or by_path.get(t.callee.path)
+            if cbody is not None and cbody.kind == "Closure" and len(t.args) == 2:
+                # a local closure called by name (`let check = || ..; if check() {..}`): rustc resolves the call to the closure's body
+                if len(cbody.d["blocks"]) <= MAX_CLOSURE_BLOCKS and getattr(cur, "origin", cur).path != cbody.path:
+                    jobs.append((blk.idx, "direct_self", n, cbody, None))
                 continue
             if n not in ONE_SHOT and n not in LOOPING: continue
             p = (t.callee.resolved or t.callee.path)
@@ -287,9 +301,9 @@ def desugar_closures(facts, body, rounds=2):
                 return st
             rty = cb.d["locals"][0]; rty = rty if isinstance(rty, str) else rty.get("ty", "")
             res = fresh(rty)
-            if kind == "direct":
+            if kind in ("direct", "direct_self"):
                 # arguments arrive as one tuple: parameter i is its field i
-                st = enter([], None)
+                st = enter([], None) if kind == "direct" else [_use(_L(off + 1), args[0], sp)]
                 tup = args[1]
                 tl = tup["m"] if "m" in tup else tup.get("c")
                 if tl is None: continue
